@@ -20,6 +20,7 @@ package encoding
 //@ func TimeFromBytes
 //@   requires len(b) >= 8
 //@   ensures val: abs(result) == untilOf(b)
+//@   ensures in_range: unixNano(result) == clamp64(unixNano(result))
 //@   pureheap
 //@   nopanic
 
@@ -183,9 +184,9 @@ package encoding
 //@   modifies *
 //@   ensures no_drop: otherPeriods > 0 ==> untilOffset >= 0 && (otherPeriods - 1 + untilOffset) / scale < resultPeriods
 //@   at call dyn:submerge assert bucket: 0 <= p && p < resultPeriods && 0 <= po && po < otherPeriods && untilOf(result) - p*resolution - resolution < untilOf(other) - po*otherResolution && untilOf(other) - po*otherResolution <= untilOf(result) - p*resolution
-//@   at call Sequence).NumPeriods after assert cap_lo: scale >= 1 && abs(newAsOf) <= abs(otherUntil) - otherPeriods*otherResolution && untilOffset >= 0 && untilOffset*otherResolution == abs(resultUntil) - abs(otherUntil)
-//@   at call Sequence).NumPeriods after assert cap_hi: scale >= 1 && callresult0*resolution >= abs(resultUntil) - abs(newAsOf)
-//@   at call Sequence).NumPeriods after assert cap: scale >= 1 && callresult0*resolution >= abs(resultUntil) - (abs(otherUntil) - otherPeriods*otherResolution)
+//@   at call Sequence).NumPeriods after inscope assert cap_lo: scale >= 1 && abs(newAsOf) <= abs(otherUntil) - otherPeriods*otherResolution && untilOffset >= 0 && untilOffset*otherResolution == abs(resultUntil) - abs(otherUntil)
+//@   at call Sequence).NumPeriods after inscope assert cap_hi: scale >= 1 && callresult0*resolution >= abs(resultUntil) - abs(newAsOf)
+//@   at call Sequence).NumPeriods after inscope assert cap: scale >= 1 && callresult0*resolution >= abs(resultUntil) - (abs(otherUntil) - otherPeriods*otherResolution)
 //@   callback submerge modifies callarg0[0:w]
 //@   loop 0 invariant po_range: 0 <= po && po <= otherPeriods
 //@   loop 0 invariant hdr_result: untilOf(result) == abs(resultUntil) && len(result) >= 8
@@ -228,4 +229,36 @@ package encoding
 //@   ensures expired_point: T <= tb ==> len(result) == 0 || (obj(result) == obj(seq) || fresh(result))
 //@   instance res1s_w9: resolution == 1000000000 && e.EncodedWidth() == 9
 //@   instance res1m_w17: resolution == 60000000000 && e.EncodedWidth() == 17
+//@   nopanic
+
+// C01/C10/C14 (table.insert): the WAL entry readers return windows of their argument (no copy, no reordering).
+// Partial correctness: a too-short buffer panics (recovered by table.insert, the entry is then not inserted).
+//@ func Read
+//@   ensures head: obj(result0) == obj(b) && off(result0) == off(b) && len(result0) == l
+//@   ensures tail: obj(result1) == obj(b) && off(result1) == off(b) + l && len(result1) == len(b) - l
+//@   ensures in_bounds: 0 <= l && l <= cap(b)
+//@   pureheap
+
+//@ func ReadInt32
+//@   ensures val: result0 == u32At(b, 0)
+//@   ensures tail: obj(result1) == obj(b) && off(result1) == off(b) + 4 && len(result1) == len(b) - 4
+//@   ensures nonneg: 0 <= result0 && result0 < 4294967296
+//@   ensures in_bounds: len(b) >= 4
+//@   pureheap
+
+// C01 (table.doInsert -> row store): the TSParams handed to the row store begins with the point's own timestamp and
+// carries the value bytes unchanged, in a fresh buffer.
+//@ func EncodeTime
+//@   requires len(b) >= 8
+//@   requires unixNano(ts) == clamp64(unixNano(ts))
+//@   modifies b[0:8]
+//@   ensures val: untilOf(b) == abs(ts)
+//@   nopanic
+
+//@ func NewTSParams
+//@   requires unixNano(ts) == clamp64(unixNano(ts))
+//@   modifies nothing
+//@   ensures ts_encoded: len(result) == 8 + len(params) && untilOf(result) == abs(ts)
+//@   ensures params_kept: forall i in 0..len(params) :: result[8+i] == old(params[i])
+//@   ensures fresh_result: fresh(result)
 //@   nopanic
